@@ -118,6 +118,7 @@ impl<'a> G<'a> {
             let wordlike = matches!(k, 0 | 1 | 2 | 3 | 4 | 6 | 7 | 9);
             if i > 0 { if prev_wordlike && wordlike { self.plain_ws(); } else if self.u.coin(1, 2) { self.plain_ws(); } }
             match k {
+                0 if self.u.coin(1, 5) => { self.feat("composite-open-code-name"); let s = self.pick(&["out_", "lib.", "x", "v_", "t"]); self.p(s); self.mvar(true); if self.u.coin(1, 2) { let t = self.pick(&["_x", "y", ".z", "1"]); self.p(t); } if self.u.coin(1, 3) { self.p("%m(a)"); if self.u.coin(1, 2) { self.p("_t"); } } }
                 0 => { let s = self.pick(IDENTS); self.p(s); }
                 1 => { if self.u.coin(1, 3) { let s = self.pick(&["$char10.", "best12.2", "date9.", "$20.", "8.", "$upcase8.", "comma12.", "$fmtü5.", "$тест.", "8.2", "e8.", "$8.", "z5.", "yymmdd10.", "$hex4.", "12.", "commax12.2", "best.", "$char."]); self.p(s); } else { let s = self.pick(IDENTS); self.p(s); } }
                 2 => { let s = self.pick(OPEN_KW); self.p(s); }
@@ -381,7 +382,7 @@ impl<'a> G<'a> {
         let k = if self.depth > 6 { self.u.below(3) } else { self.u.below(10) };
         let k = if nonword { match k { 0 | 1 | 3 | 7 => 2, 5 | 6 if self.depth > 6 => 2, o => o } } else { k };
         match k {
-            0 | 1 => { let s = self.pick(&["0", "1", "42", "100", "0ffx", "007"]); self.mark(s, MK::IntOperand); self.tp(); }
+            0 | 1 => { let s = self.pick(&["0", "1", "42", "100", "0ffx", "007", "10", "00", "1Ax", "0FFX", "999999999"]); self.mark(s, MK::IntOperand); self.tp(); }
             2 => self.mvar(true),
             3 => { let w = self.pick(&["abc", "x1", "txt", "é", "a b c", "1 2 3", "x.y", "a_1 b", "rate", "size", "SCALE", "value", "base", "type"]); self.p(w); }
             4 => { self.feat("eval-parens"); self.mark("(", MK::Op("LPAREN")); self.ows(); self.eval_expr(float, false); self.gap_after_expr(); self.mark(")", MK::Op("RPAREN")); }
